@@ -394,3 +394,72 @@ Theorem C20_F4_sharing_refuted :
     top_view p (load (sh_bits []) tr_id true false "P_" [] (Some exs_f) env').
 Proof. exact F4_sharing_refuted. Qed.
 Print Assumptions C20_F4_sharing_refuted.
+
+(* ------------------------------------------------------------------ sequences of loads in one process *)
+
+From HV Require Import C20.History.
+
+(** Loading is a function of its three inputs — over SEQUENCES of loads in one
+    process (seeded round 5, C20-10).  C20/History.v models what
+    config.NewConfiguration does around the tree-level loader: a Configuration
+    value holds its reference-typed settings (cache.config, the provider
+    settings: map[string]any; slices; pointers) as references into a heap,
+    decoding writes into the instance the value refers to, a deep look at a
+    value dereferences at the time of looking; [share = false] = defaultConfig()
+    makes new instances per call (the code as it is).  Generic form: any loader
+    [ld k d input] (k = number of the load in the process), any way [sub]/[put]
+    of reading a setting out of / putting it into a tree with
+    [put p (sub p t) t = t].  Every result of every sequence, looked at after
+    ALL its loads, is what its own input gives alone on the built-in defaults:
+    the n-th load inherits nothing, earlier results never change. *)
+Theorem C20_history_independent :
+  forall (T V I P : Type) (ld : nat -> T -> I -> res T) (sub : P -> T -> V) (put : P -> V -> T -> T),
+    (forall p t, put p (sub p t) t = t) ->
+    forall d0 rps h0 ins s' cs,
+      run ld sub put d0 rps false (start sub d0 rps h0) ins = (s', cs) ->
+      forall k inp, nth_error ins k = Some inp ->
+        exists oc, nth_error cs k = Some oc /\ observe put (hp s') oc = ld k d0 inp.
+Proof. exact history_independent. Qed.
+Print Assumptions C20_history_independent.
+
+(** the same for the tree-level loader of this development, every load with its own Go map orders [shs k] *)
+Theorem C20_load_history_independent :
+  forall shs to_real pfx d0 rps h0 ins s' cs,
+    run_loads shs to_real pfx d0 rps false h0 ins = (s', cs) ->
+    forall k f env, nth_error ins k = Some (f, env) ->
+      exists oc, nth_error cs k = Some oc /\
+                 look s' oc = load (shs k) to_real true false pfx d0 f env.
+Proof.
+  intros shs to_real pfx d0 rps h0 ins s' cs E k f env H.
+  exact (history_independent _ _ _ _ (proc_load shs to_real pfx) subp putp putp_subp d0 rps h0 ins s' cs E k (f, env) H).
+Qed.
+Print Assumptions C20_load_history_independent.
+
+(** ... so that the main sentence holds for every load of every sequence: whatever was loaded before and
+    after, a load of the property's domain shows — at any later time — the specification's tree of its OWN
+    (built-in defaults, file, environment) *)
+Theorem C20_load_sequence_meets_spec :
+  forall shs to_real pfx d0 rps h0 ins s' cs,
+    (forall k, perm_fun (shs k)) ->
+    run_loads shs to_real pfx d0 rps false h0 ins = (s', cs) ->
+    forall k f env tenv, nth_error ins k = Some (Some f, env) ->
+      domainN to_real pfx d0 f env tenv ->
+      exists oc t, nth_error cs k = Some oc /\ look s' oc = Ok t /\ Tidy (Map t) /\
+                   forall p, view p (Map t) = spec_view d0 f tenv p.
+Proof.
+  intros shs to_real pfx d0 rps h0 ins s' cs Hp E k f env tenv H D.
+  destruct (C20_load_history_independent _ _ _ _ _ _ _ _ _ E _ _ _ H) as (oc & H1 & H2).
+  destruct (load_meets_spec_n (shs k) to_real pfx d0 f env tenv (Hp k) D) as (t & L & Ti & Vw).
+  exists oc, t. rewrite H2. auto.
+Qed.
+Print Assumptions C20_load_sequence_meets_spec.
+
+(** the sentence is not empty: with a defaults value assembled once and copied shallowly ([share = true]) it
+    fails on three loads (file sets cache.config.address/db; environment names log.level only; file sets
+    cache.config.db = 2) — the second result shows the first load's cache.config, and the first result,
+    looked at again after the third load, shows db = 2; with [share = false] both are as they should be *)
+Theorem C20_shared_defaults_refuted :
+  hw_look true 2 1 <> hw_alone 1 /\ hw_look true 1 0 <> hw_look true 3 0 /\
+  hw_look false 2 1 = hw_alone 1 /\ hw_look false 1 0 = hw_look false 3 0.
+Proof. vm_compute. splits; try reflexivity; intro H; discriminate H. Qed.
+Print Assumptions C20_shared_defaults_refuted.
